@@ -1965,6 +1965,8 @@ class Normaliser:
         kind = None
         if isinstance(st, ast.For):
             return self._inline_generator_loop(st, fn, rel, mod, cls, stack, depth, caller_names)
+        if isinstance(st, ast.With):
+            return self._inline_context_manager(st, fn, rel, mod, cls, stack, depth, caller_names)
         if isinstance(st, (ast.Assign, ast.AnnAssign, ast.AugAssign)) and isinstance(st.value, ast.Call):
             call, kind = st.value, 'assign'
         elif isinstance(st, ast.Return) and isinstance(st.value, ast.Call):
@@ -2073,6 +2075,77 @@ class Normaliser:
         for x in new_body:
             ast.fix_missing_locations(x) if hasattr(x, 'lineno') else ast.copy_location(x, st)
         return [ast.copy_location(x, st) if not hasattr(x, 'lineno') else x for x in new_body]
+
+    def _inline_context_manager(self, st: ast.With, fn, rel, mod, cls, stack, depth, caller_names):
+        """`with self.cm(a) [as x]: BODY` where cm is a new @contextmanager helper of the form
+        `PRE; yield [v]; POST` (the yield at the top level, no try around it, or exactly
+        `PRE; try: yield [v] finally: POST`): `PRE; [x = v;] BODY; POST` / the same with try/finally."""
+        if len(st.items) != 1 or not isinstance(st.items[0].context_expr, ast.Call):
+            return None
+        item = st.items[0]
+        r = self._resolve(item.context_expr, fn, rel, mod, cls)
+        if r is None:
+            return None
+        callee, recv, owner_rel, nested = r
+        if callee.name in stack:
+            return None
+        decs = [ast.unparse(d).split('.')[-1] for d in callee.decorator_list]
+        if 'contextmanager' not in decs or any(d not in ('contextmanager', 'staticmethod', 'classmethod') for d in decs):
+            return None
+        a = callee.args
+        if a.vararg or a.posonlyargs or a.kwarg or _stmt_count(callee) > MAX_STMTS:
+            return None
+        for n in ast.walk(callee):
+            if isinstance(n, (ast.YieldFrom, ast.Await, ast.Global, ast.Nonlocal, ast.Return, ast.Lambda)):
+                return None
+            if isinstance(n, (ast.FunctionDef, ast.AsyncFunctionDef)) and n is not callee:
+                return None
+        body = self._body(callee)
+        yields = [n for n in ast.walk(callee) if isinstance(n, ast.Yield)]
+        if len(yields) != 1:
+            return None
+        # the body of the with statement must not leave it other than by falling off its end
+        for n in ast.walk(ast.Module(body=st.body, type_ignores=[])):
+            if isinstance(n, (ast.Return, ast.Break, ast.Continue, ast.Yield, ast.YieldFrom)):
+                return None
+
+        def is_yield(x) -> bool:
+            return isinstance(x, ast.Expr) and x.value is yields[0]
+        idx = next((i for i, x in enumerate(body) if is_yield(x)), None)
+        fin = None
+        if idx is None:
+            idx = next((i for i, x in enumerate(body) if isinstance(x, ast.Try) and len(x.body) == 1
+                        and is_yield(x.body[0]) and not x.handlers and not x.orelse and x.finalbody), None)
+            if idx is None or idx != len(body) - 1:
+                return None
+            fin = body[idx].finalbody
+        b = self._bind(item.context_expr, callee, recv, caller_names | _assigned_names(st))
+        if b is None:
+            return None
+        prelude, mapping, rename = b
+
+        def sub(stmts):
+            holder = ast.Module(body=clone(list(stmts)), type_ignores=[])
+            _Sub(mapping, rename).visit(holder)
+            return holder.body
+        pre = sub(body[:idx])
+        bind_x = []
+        if item.optional_vars is not None:
+            val = yields[0].value if yields[0].value is not None else ast.Constant(value=None)
+            bind_x = sub([ast.Assign(targets=[clone(item.optional_vars)], value=val)])
+            bind_x[0].targets = [clone(item.optional_vars)]
+        if fin is None:
+            out = prelude + pre + bind_x + list(st.body) + sub(body[idx + 1:])
+        else:
+            out = prelude + pre + [ast.Try(body=bind_x + list(st.body), handlers=[], orelse=[], finalbody=sub(fin))]
+        self.inlined.append(f'{owner_rel}::{callee.name} -> {fn.name}')
+        res = []
+        for x in out:
+            if not hasattr(x, 'lineno'):
+                ast.copy_location(x, st)
+            ast.fix_missing_locations(x)
+            res.append(x)
+        return res
 
     def _acceptable_generator(self, callee: ast.FunctionDef) -> bool:
         a = callee.args
